@@ -47,6 +47,11 @@ impl Cmd {
     }
 }
 
+fn debug() -> bool {
+    static D: std::sync::OnceLock<bool> = std::sync::OnceLock::new();
+    *D.get_or_init(|| std::env::var("SIMSCRIPT_DEBUG").is_ok())
+}
+
 #[derive(Default)]
 pub struct PlanState {
     /// (position in VM-executed cycles summed over all machines of this verification, command)
@@ -56,7 +61,8 @@ pub struct PlanState {
     pub executed: u64,
     /// what happened, in order: (kind, position). Kinds: 1 suspend 2 resume 3 stop delivered,
     /// 4 VM paused, 5 implicit resume, 6 stop noticed, 7 paused VM released by a command the
-    /// parent was still sending, 8 command dropped because the parent task was blocked
+    /// parent was still sending, 8 command dropped because the parent task was blocked,
+    /// 9 implicit suspend in front of a resume
     pub log: Vec<(u8, u64)>,
     pub pauses: u64,
     pub stop_delivered: bool,
@@ -66,6 +72,7 @@ pub struct PlanState {
     pub implicit_resumes: u64,
     pub delivered_while_paused: u64,
     pub dropped_parent_blocked: u64,
+    pub implicit_suspends: u64,
     pub machine_runs: u64,
     pub harness_error: Option<String>,
     /// The real parent task forwards Resume/Stop with `child_tx.send`, which needs the write lock
@@ -143,36 +150,54 @@ impl SimCtx {
     }
 
     /// Send `cmd` on the real channel and wait for its observable effect in the real parent
-    /// task: Suspend = a poll that started after the send has completed (the select loop has
-    /// called `pause.interrupt()` and is waiting again); Resume / Stop = such a poll has
-    /// started and the pause flag has the value the parent gives it before it blocks in
-    /// `child_tx.send`. Returns false when the parent is still blocked by an earlier
-    /// Resume/Stop and could not take the command now.
+    /// task.
+    /// * Suspend: a poll of the parent that started after the send has completed, i.e. the
+    ///   select loop has called `pause.interrupt()` and is waiting again.
+    /// * Resume: the parent calls `pause.free()` and then blocks in `child_tx.send` (see
+    ///   `parent_blocked_since`), so its poll cannot complete; the observable is the pause flag
+    ///   going from 1 to 0. If the flag is 0 (nothing to observe) an implicit Suspend is
+    ///   delivered first at the same parked cycle, which is itself a legal schedule.
+    /// * Stop: the parent calls `pause.interrupt()` and blocks in `child_tx.send`; the
+    ///   observable is the flag being 1. Nothing is delivered after a Stop.
+    /// Returns false when the parent is blocked by an earlier Resume/Stop and cannot take a
+    /// command before the current scheduler run returns.
     fn deliver(&self, st: &mut PlanState, cmd: Cmd, pause: &Pause) -> Result<bool, String> {
         if st.parent_blocked_since.is_some() {
             return Ok(false);
         }
-        let _ = self.tx.send(cmd.to_real());
-        let n = self.poll_started.load(Ordering::SeqCst);
-        self.wake_parent();
+        if cmd == Cmd::Resume && !pause.has_interrupted() {
+            st.implicit_suspends += 1;
+            st.log.push((9, st.executed));
+            self.send_suspend(pause)?;
+        }
         match cmd {
-            Cmd::Suspend => {
-                self.wait_until("suspend handled", || self.finished() > n)?;
-            }
+            Cmd::Suspend => self.send_suspend(pause)?,
             Cmd::Resume => {
-                self.wait_until("resume seen", || {
-                    self.poll_started.load(Ordering::SeqCst) > n && !pause.has_interrupted()
-                })?;
-                st.parent_blocked_since = Some(n);
+                let n0 = self.poll_started.load(Ordering::SeqCst);
+                let _ = self.tx.send(ChunkCommand::Resume);
+                self.wake_parent();
+                self.wait_until("resume taken", || !pause.has_interrupted())?;
+                st.parent_blocked_since = Some(n0);
             }
             Cmd::Stop => {
-                self.wait_until("stop seen", || {
-                    self.poll_started.load(Ordering::SeqCst) > n && pause.has_interrupted()
-                })?;
-                st.parent_blocked_since = Some(n);
+                let n0 = self.poll_started.load(Ordering::SeqCst);
+                let _ = self.tx.send(ChunkCommand::Stop);
+                self.wake_parent();
+                self.wait_until("stop taken", || pause.has_interrupted())?;
+                st.parent_blocked_since = Some(n0);
             }
         }
+        if debug() {
+            eprintln!("delivered {:?} at {} flag={}", cmd, st.executed, pause.has_interrupted());
+        }
         Ok(true)
+    }
+
+    fn send_suspend(&self, pause: &Pause) -> Result<(), String> {
+        let _ = self.tx.send(ChunkCommand::Suspend);
+        let n = self.poll_started.load(Ordering::SeqCst);
+        self.wake_parent();
+        self.wait_until("suspend handled", || self.finished() > n && pause.has_interrupted())
     }
 
     pub fn note_child_panic(&self, msg: String) {
@@ -273,16 +298,11 @@ impl SimMachine {
         st.machine_runs += 1;
         let pause = self.inner.machine().pause();
         let ptr = pause.get_raw_ptr() as usize;
-        if let Some(nb) = st.parent_blocked_since {
-            if st.unblock_expected || ptr != st.pause_ptr {
-                // the scheduler run that kept the parent blocked has returned: its send goes
-                // through, wait until that poll is over
-                if let Err(e) = ctx.wait_until("parent unblocked", || ctx.finished() > nb) {
-                    st.harness_error = Some(e);
-                }
-                st.parent_blocked_since = None;
-                st.unblock_expected = false;
-            }
+        if st.parent_blocked_since.is_some() && (st.unblock_expected || ptr != st.pause_ptr) {
+            // the scheduler run that kept the parent blocked has returned (VM paused, or a new
+            // script group with a new Pause object): the parent's send goes through
+            st.parent_blocked_since = None;
+            st.unblock_expected = false;
         }
         st.pause_ptr = ptr;
         let real_max = self.inner.machine().max_cycles();
